@@ -2,4 +2,7 @@ import TWV.Model.Base
 import TWV.Model.Search
 import TWV.Model.Arrays
 import TWV.Model.Match
+import TWV.Model.Funfit
+import TWV.Model.Rfa
 import TWV.Driver.Ops
+import TWV.Properties.C10
